@@ -34,6 +34,7 @@ func checkC02(c *ev.Ctx) {
 	defer func() { c.Set("largest_match_distance_seen", maxDist) }()
 	par(len(cases), func(i int) {
 		k := cases[i]
+		noteCase(k.ID)
 		if !want(c, k.ID) {
 			return
 		}
